@@ -27,7 +27,8 @@ TECHNIQUE = "differential testing of two real XKNX instances (with / without eag
 RULE = (
     "device set: every device class with all its remote values at own group addresses plus 5 sensors / 1 numeric value / 1 expose sensor with "
     "generated DPTs; table: per remote value one of {none, own DPT, random DPT of the class tree, DPT with the same main number, invalid id} "
-    "rendered as 'main.sub' string, value_type string, dict, int or 'DPT-n'; stream of up to 25 write / response / read telegrams with payloads of "
+    "rendered as 'main.sub' string, value_type string, dict, int or 'DPT-n'; table history of 1..4 phases on the configured instance "
+    "(set; then set again = merge / re-type, clear, or clear followed by set for other addresses / types), each phase followed by write / response / read telegrams (about 25 in all) with payloads of "
     "the remote value's length, the table DPT's length, random length or 6-bit; incoming via the queue consumer (outgoing for the internal address); "
     "non-trivial = at least one telegram was eagerly decoded by a table type that is not the receiving remote value's own type while the remote value accepted the same payload; "
     "distinct by (sensor types, table, stream)"
@@ -35,7 +36,8 @@ RULE = (
 LEVEL_TEXT = (
     "Differential: instance A has no table, instance B the generated one; after the stream every remote value (value, last payload, last telegram), "
     "every public property of every device and the number of device callbacks are compared; decoded_data of every telegram of B is compared with "
-    "the configured class' own decode (independently resolved from the class tree), and must be None in A, for invalid entries and on decode errors; "
+    "the decode of the class CURRENTLY configured for its address according to a reference model of the table (set merges, an entry with an unknown id leaves the "
+    "previous one, clear empties; classes independently resolved from the class tree), and must be None in A, for unconfigured / invalid entries and on decode errors; "
     "no exception may escape GroupAddressDPT.set, the consumer task or the devices."
 )
 LEVEL_NOTE = "DPT classes' from_knx is trusted as 'what the configured type decodes' (their correctness is C07-C10); clocks read by BinarySensor / TravelCalculator are frozen and the loop is the virtual-time loop (device timers such as the 0.2 s colour debounce never fire during the stream), so both instances are processed identically regardless of machine load."
@@ -259,12 +261,28 @@ def cases(draw):
     sensor_types = [names[draw(st.integers(0, len(names) - 1))] for _ in range(7)]
     # a sparse table: entries for a generated subset of the remote values
     idxs = draw(st.lists(st.integers(0, n_rv - 1), min_size=1, max_size=12, unique=True))
-    table = [[i, list(draw(_entry))] for i in idxs]
-    tele = []
-    for _ in range(draw(st.integers(1, 25))):
-        i = draw(st.sampled_from(idxs)) if draw(st.integers(0, 9)) < 8 else draw(st.integers(0, n_rv - 1))
-        tele.append([i, draw(st.sampled_from(["write", "write", "write", "response", "read"])), list(draw(_payload))])
-    return {"sensor_types": sensor_types, "table": table, "telegrams": tele}
+    # a table history: set -> telegrams -> clear / set (merge, other types, other addresses) -> telegrams ...
+    script: list = []
+    n_phases = draw(st.sampled_from([1, 2, 2, 3, 3, 4]))
+    for ph in range(n_phases):
+        ops = ["set"] if ph == 0 else draw(st.sampled_from([["set"], ["clear"], ["clear", "set"], ["clear", "set"]]))
+        for o in ops:
+            if o == "clear":
+                script.append(["clear"])
+            else:
+                sub = idxs if ph == 0 else draw(st.lists(st.sampled_from(idxs), min_size=1, max_size=len(idxs), unique=True))
+                script.append(["set", [[i, list(draw(_entry))] for i in sub]])
+        for _ in range(draw(st.integers(1, 25 if n_phases == 1 else 8))):
+            i = draw(st.sampled_from(idxs)) if draw(st.integers(0, 9)) < 8 else draw(st.integers(0, n_rv - 1))
+            script.append(["tele", i, draw(st.sampled_from(["write", "write", "write", "response", "read"])), list(draw(_payload))])
+    return {"sensor_types": sensor_types, "script": script}
+
+
+def script_of(h) -> list:
+    """The table / telegram history of a case (older saved inputs: one table, then telegrams)."""
+    if "script" in h:
+        return h["script"]
+    return [["set", h["table"]]] + [["tele", *t] for t in h["telegrams"]]
 
 
 # ---------------------------------------------------------------------------
@@ -345,7 +363,7 @@ def dpt_len(cls):
     return getattr(cls, "payload_length", None)
 
 
-async def run_instance(ctx, h, with_table: bool, resolved, info):
+async def run_instance(ctx, h, with_table: bool, plan, info):
     """Returns (snapshot, [decoded_data per telegram]) or None after a recorded failure."""
     from xknx import XKNX
     from xknx.telegram import Telegram, TelegramDirection
@@ -356,28 +374,35 @@ async def run_instance(ctx, h, with_table: bool, resolved, info):
     counters: dict = {}
     devs = build_devices(xknx, h["sensor_types"], counters)
     rvs = remote_values(devs)
-    if with_table:
-        table = {}
-        for i, _e in h["table"]:
-            key, val = resolved[i][0], resolved[i][1]
-            if key is not None:
-                table[str(rvs[i][3]) if i % 2 else rvs[i][3]] = val
-        try:
-            xknx.group_address_dpt.set(table)
-        except Exception as e:  # noqa: BLE001
-            ctx.fail(f"C38:table-set-exc:{exc_site(e)}", h, f"GroupAddressDPT.set raised {e!r} for {table!r}"[:1500])
-            return None
     await xknx.telegram_queue.start()
     consumer = xknx.telegram_queue._consumer_task  # noqa: SLF001
     sent = []
     try:
-        for i, apci, pspec in h["telegrams"]:
+        for step, p in zip(script_of(h), plan):
+            if step[0] == "set":
+                if with_table:
+                    table = {(str(rvs[i][3]) if i % 2 else rvs[i][3]): val for i, val in p}
+                    try:
+                        xknx.group_address_dpt.set(table)
+                    except Exception as e:  # noqa: BLE001
+                        ctx.fail(f"C38:table-set-exc:{exc_site(e)}", h, f"GroupAddressDPT.set raised {e!r} for {table!r}"[:1500])
+                        return None
+                continue
+            if step[0] == "clear":
+                if with_table:
+                    try:
+                        xknx.group_address_dpt.clear()
+                    except Exception as e:  # noqa: BLE001
+                        ctx.fail(f"C38:table-clear-exc:{exc_site(e)}", h, f"GroupAddressDPT.clear raised {e!r}")
+                        return None
+                continue
+            _t, i, apci, pspec = step
             name, _k, rv, ga = rvs[i]
             own = rv.dpt_class
             rv_len = dpt_len(own)
             if own is None:
                 rv_len = RV_LEN.get(type(rv).__name__)
-            tab_cls = resolved.get(i, (None, None, None))[2]
+            tab_cls = p[2]
             value = make_payload(pspec, rv_len, dpt_len(tab_cls))
             payload = GroupValueRead() if apci == "read" else (GroupValueResponse(value) if apci == "response" else GroupValueWrite(value))
             direction = TelegramDirection.OUTGOING if isinstance(ga, InternalGroupAddress) else TelegramDirection.INCOMING
@@ -418,8 +443,41 @@ RV_LEN = {
 }
 
 
-def resolve_table(h):
-    """index -> (kind, table value, expected class or None)."""
+def make_plan(h):
+    """Reference model of the table, op by op.
+
+    Per script step: for a set the list [(rv index, table value)] handed to GroupAddressDPT.set; for a clear None;
+    for a telegram (kind, table value, class currently configured for its address or None, cleared before?, number of sets so far).
+    """
+    cur: dict = {}
+    cleared = False
+    n_sets = 0
+    plan = []
+    for step in script_of(h):
+        if step[0] == "set":
+            n_sets += 1
+            res = resolve_table(h, step[1])
+            items = []
+            for i, _e in step[1]:
+                kind, val, c = res[i]
+                if kind is None:
+                    continue
+                items.append((i, val))
+                if c is not None:
+                    cur[i] = (kind, val, c)  # an entry with an unknown DPT is skipped: the previous one stays
+            plan.append(items)
+        elif step[0] == "clear":
+            cur = {}
+            cleared = True
+            plan.append(None)
+        else:
+            kind, val, c = cur.get(step[1], ("unconfigured", None, None))
+            plan.append((kind, val, c, cleared, n_sets))
+    return plan
+
+
+def resolve_table(h, table):
+    """index -> (kind, table value, expected class or None) for one set() call."""
     tree = _tree()
     lay = layout()
     # the sensors' own classes follow the generated sensor types
@@ -429,7 +487,7 @@ def resolve_table(h):
     sensor_names = {f"sensor{i}": t for i, t in enumerate(h["sensor_types"][:5])}
     sensor_names["expose"] = h["sensor_types"][6]
     out = {}
-    for i, e in h["table"]:
+    for i, e in table:
         kind = e[0]
         name = lay[i][0]
         own_name = sensor_names.get(name, own_by_idx[i])
@@ -459,14 +517,16 @@ def resolve_table(h):
 def oracle(ctx, h) -> None:
     from xknx.exceptions import ConversionError, CouldNotParseTelegram
 
-    resolved = resolve_table(h)
+    plan = make_plan(h)
+    tele_plan = [p for st_, p in zip(script_of(h), plan) if st_[0] == "tele"]
+    tele_steps = [st_ for st_ in script_of(h) if st_[0] == "tele"]
     info: dict = {}
 
     async def both():
-        a = await run_instance(ctx, h, False, resolved, info)
+        a = await run_instance(ctx, h, False, plan, info)
         if a is None:
             return None
-        b = await run_instance(ctx, h, True, resolved, info)
+        b = await run_instance(ctx, h, True, plan, info)
         if b is None:
             return None
         return a, b
@@ -491,11 +551,16 @@ def oracle(ctx, h) -> None:
         (snap_a, dec_a), (snap_b, dec_b) = res
         lay = layout()
         # ---- decoded_data -----------------------------------------------------
-        for n, ((da, value, apci, _acc), (db, _v, _a, accepted), (i, _apci, _p)) in enumerate(zip(dec_a, dec_b, h["telegrams"])):
+        for n, ((da, value, apci, _acc), (db, _v, _a, accepted), (_t, i, _apci, _p), tp) in enumerate(zip(dec_a, dec_b, tele_steps, tele_plan)):
             if da is not None:
                 ctx.fail("C38:decoded-data:set-without-table", h, f"telegram {n}: decoded_data {da!r} on the instance without a table")
                 break
-            kind, _val, exp_cls = resolved.get(i, (None, None, None))
+            kind, _val, exp_cls, cleared, n_sets = tp
+            phase = ":after-clear" if cleared else (":after-merge" if n_sets > 1 else "")
+            if cleared:
+                cls.add("telegram-after-clear" if exp_cls is None else "telegram-after-clear-and-set")
+            elif n_sets > 1:
+                cls.add("telegram-after-merging-set")
             if exp_cls is None or apci == "read":
                 exp = None
             else:
@@ -506,7 +571,7 @@ def oracle(ctx, h) -> None:
             got = None if db is None else (db.transcoder, db.value)
             if repr(got) != repr(exp) or (got is not None and got[0] is not exp[0]):
                 which = "missing" if got is None else ("unexpected" if exp is None else ("wrong-transcoder" if got[0] is not exp[0] else "wrong-value"))
-                ctx.fail(f"C38:decoded-data:{which}:{kind}", h, f"telegram {n} to {lay[i][0]} payload {value!r}: decoded_data {got!r}, configured type gives {exp!r} (table entry {resolved.get(i)!r})")
+                ctx.fail(f"C38:decoded-data:{which}:{kind}{phase}", h, f"telegram {n} to {lay[i][0]} payload {value!r}: decoded_data {got!r}, currently configured type gives {exp!r} (table entry {tp[:3]!r}, cleared before: {cleared}, sets so far: {n_sets})")
                 break
             if got is not None:
                 if kind == "own":
@@ -528,7 +593,7 @@ def oracle(ctx, h) -> None:
     if foreign_hits:
         cls.add("eager-decode-by-foreign-type-rv-accepts")
     nontrivial = foreign_hits > 0
-    sample = {"table": [[layout()[i][0], resolved[i][0], repr(resolved[i][1])] for i, _ in h["table"]][:6], "n_telegrams": len(h["telegrams"])} if nontrivial else None
+    sample = {"script": [st_[0] if st_[0] != "tele" else f"tele->{layout()[st_[1]][0]}" for st_ in script_of(h)][:14]} if nontrivial else None
     ctx.case(repr(h), nontrivial=nontrivial, cls=sorted(cls), sample=sample)
 
 
